@@ -304,8 +304,22 @@ def oracle_C04(result):
     bad = []
     steps = result["steps"]
     owner = {}
+    toks, got = {}, {}
     for i, s in enumerate(steps):
         op, out, probe = s["op"], s["out"], s["probe"]
+        # every caller of one context gets the same object for one (type, name): a pair, once bound, stays bound
+        if op["op"] == "GetBegin":
+            toks[(op["c"], op["tok"])] = (op["t"], op["name"])
+        key = None
+        if op["op"] in ("GetNowait", "GetBegin"):
+            key = (op["c"], op["t"], op["name"])
+        elif op["op"] == "GetEnd" and (op["c"], op["tok"]) in toks:
+            key = (op["c"],) + toks[(op["c"], op["tok"])]
+        if key and out["k"] == "Val" and out["v"] is not None:
+            if key in got and got[key][1] != out["v"]:
+                bad.append(("C04:callers-disagree", f"step {i}: lookup of {key[1:]} in context {key[0]} returned "
+                            f"{out['v']}, the lookup at step {got[key][0]} returned {got[key][1]}", i))
+            got.setdefault(key, (i, out["v"]))
         prev = steps[i - 1]["probe"] if i else []
         for j, p in enumerate(probe):
             for ft, fn, n in p["calls"]:
